@@ -39,7 +39,7 @@ fn main() {
   if args.len() < 2 { usage(); }
   let rest = &args[2..];
   match args[1].as_str() {
-    "keys" => cases::cmd_keys(),
+    "keys" => cases::cmd_keys(rest.get(0)),
     "builtins" => cases::cmd_builtins(),
     "tabulate" => { if rest.len() != 3 { usage(); } tabulate::cmd_tabulate(&rest[0], &rest[1], rest[2].parse().unwrap()) },
     "walk" => { if rest.len() != 1 { usage(); } tabulate::cmd_walk(&rest[0]) },
